@@ -1,5 +1,7 @@
 import Toodee.Spec.Cells
 import Toodee.Impl.Copy
+import Toodee.Proofs.CopyLemmas
+import Toodee.Properties.C13
 /-
   C14 — Copy operations transfer exactly the source cells.
 
@@ -19,14 +21,73 @@ theorem C14_copy_from_slice_default (m : Mode) (v : VW) (buf : List α) (h : v.I
     (v.numCols * v.numRows = src.length →
       a.copyFromSlice m buf src = .ok (v.updCells buf fun cr => src[cr.2 * v.numCols + cr.1]?)) ∧
     (v.numCols * v.numRows ≠ src.length → src.length < WORD → a.copyFromSlice m buf src = .error .panic) := by
-  sorry
+  have harea : v.numCols * v.numRows < WORD := by
+    have := h.area_le; have := h.inside; have := h.word; omega
+  simp only [Acc.copyFromSlice, ha.cols, ha.rows, umul_ok m _ _ harea, ok_bind]
+  constructor
+  · intro hlen
+    rw [if_neg (fun hne => hne hlen)]
+    by_cases hc0 : v.numCols = 0
+    · rw [if_pos hc0, pure_eq]
+      congr 1
+      symm
+      apply updCells_eq_self
+      intro c r hc; omega
+    · have hCpos : 0 < v.numCols := Nat.pos_of_ne_zero hc0
+      have hdiv : src.length / v.numCols = v.numRows := by
+        rw [← hlen, Nat.mul_div_cancel_left _ hCpos]
+      simp only [hc0, if_false, pure_eq, ok_bind, ha.collect_rowWins, chunksExact, hdiv]
+      rw [zipCopy_rows h (fun i => (src.drop (i * v.numCols)).take v.numCols)]
+      · congr 1
+        apply updCells_congr
+        intro c r hc hr
+        simp [hc]
+      · intro r hr
+        have := row_end_le (C := v.numCols) hr
+        simp only [List.length_take, List.length_drop]
+        omega
+  · intro hlen _
+    simp [hlen]
 
 /-- `TooDee` override -/
 theorem C14_copy_from_slice_owned (t : TD α) (h : t.Inv) (src : List α) :
     (t.numCols * t.numRows = src.length →
       t.copyFromSlice src = .ok src ∧ src = t.asView.updCells t.data fun cr => src[cr.2 * t.numCols + cr.1]?) ∧
     (t.numCols * t.numRows ≠ src.length → t.copyFromSlice src = .error .panic) := by
-  sorry
+  have hlenT := h.len
+  constructor
+  · intro hlen
+    have hls : t.data.length = src.length := by omega
+    refine ⟨by simp [TD.copyFromSlice, hls], ?_⟩
+    obtain ⟨hinv, hpos⟩ := TD.asView_inv t h
+    apply List.ext_getElem?
+    intro p
+    rw [updCells_getElem?]
+    by_cases hp : p < src.length
+    · have hC : 0 < t.numCols := by
+        apply Nat.pos_of_ne_zero
+        intro h0
+        rw [h0, Nat.zero_mul] at hlen
+        omega
+      have hc : p % t.numCols < t.asView.numCols := Nat.mod_lt _ hC
+      have hr : p / t.numCols < t.asView.numRows := by
+        apply (Nat.div_lt_iff_lt_mul hC).2
+        rw [Nat.mul_comm]
+        show p < t.numCols * t.numRows
+        omega
+      have hpe : t.asView.pos (p % t.numCols) (p / t.numCols) = p := by
+        rw [hpos]; exact Nat.div_add_mod' p t.numCols
+      have hco := hinv.coord_pos hc hr
+      rw [hpe] at hco
+      rw [hco, List.getElem?_eq_getElem (show p < t.data.length by omega)]
+      simp only [Option.map_some]
+      rw [Nat.div_add_mod', List.getElem?_eq_getElem hp]
+      simp
+    · rw [List.getElem?_eq_none (by omega), List.getElem?_eq_none (by omega)]
+      rfl
+  · intro hne
+    have hls : t.data.length ≠ src.length := by omega
+    simp [TD.copyFromSlice, hls]
 
 /-- default `copy_from_toodee` / `clone_from_toodee`; the source is any receiver `sv` over its own buffer `sbuf` -/
 theorem C14_copy_from_toodee_default (v : VW) (buf : List α) (h : v.Inv buf.length) (a : Acc)
@@ -34,7 +95,25 @@ theorem C14_copy_from_toodee_default (v : VW) (buf : List α) (h : v.Inv buf.len
     ((v.numCols = sv.numCols ∧ v.numRows = sv.numRows) →
       a.copyFromTooDee buf sa sbuf = .ok (v.updCells buf fun cr => sbuf[sv.pos cr.1 cr.2]?)) ∧
     (¬ (v.numCols = sv.numCols ∧ v.numRows = sv.numRows) → a.copyFromTooDee buf sa sbuf = .error .panic) := by
-  sorry
+  simp only [Acc.copyFromTooDee, ha.cols, ha.rows, hsa.cols, hsa.rows]
+  constructor
+  · intro hd
+    rw [if_neg (fun hn => hn hd)]
+    simp only [ha.collect_rowWins, hsa.collect_rowWins, ok_bind, List.map_map, ← hd.2]
+    rw [zipCopy_rows h (readWin sbuf ∘ sv.rowWin)]
+    · congr 1
+      apply updCells_congr
+      intro c r hc hr
+      have hpe : sv.pos 0 r + c = sv.pos c r := by unfold VW.pos; omega
+      simp only [Function.comp, readWin_getElem?, VW.rowWin, ← hd.1, if_pos hc, hpe]
+    · intro r hr
+      rw [hd.2] at hr
+      have := hs.seg_inside (c := 0) (w := sv.numCols) hr (by omega)
+      rw [Function.comp, readWin_length _ _ this, hd.1]
+      rfl
+  · intro hd
+    rw [if_pos hd]
+    rfl
 
 /-- `TooDee` override of `copy_from_toodee` / `clone_from_toodee` -/
 theorem C14_copy_from_toodee_owned (t : TD α) (h : t.Inv) (sv : VW) (sbuf : List α) (hs : sv.Inv sbuf.length)
@@ -42,7 +121,37 @@ theorem C14_copy_from_toodee_owned (t : TD α) (h : t.Inv) (sv : VW) (sbuf : Lis
     ((t.numCols = sv.numCols ∧ t.numRows = sv.numRows) →
       t.copyFromTooDee sa sbuf = .ok (t.asView.updCells t.data fun cr => sbuf[sv.pos cr.1 cr.2]?)) ∧
     (¬ (t.numCols = sv.numCols ∧ t.numRows = sv.numRows) → t.copyFromTooDee sa sbuf = .error .panic) := by
-  sorry
+  simp only [TD.copyFromTooDee, hsa.cols, hsa.rows]
+  constructor
+  · intro hd
+    obtain ⟨hinv, _⟩ := TD.asView_inv t h
+    rw [if_neg (fun hn => hn hd)]
+    simp only [hsa.collect_rowWins, ok_bind, List.map_map, ← hd.2]
+    have hwin : t.win = ⟨0 * t.numCols,
+        ((List.range t.numRows).map (readWin sbuf ∘ sv.rowWin)).length * t.numCols⟩ := by
+      simp [TD.win, h.len, Nat.mul_comm]
+    have hrows : (List.range' 0 ((List.range t.numRows).map (readWin sbuf ∘ sv.rowWin)).length).map
+        (fun i => (⟨i * t.numCols, t.numCols⟩ : Win)) = (List.range t.asView.numRows).map t.asView.rowWin := by
+      rw [List.length_map, List.length_range, ← List.range_eq_range']
+      apply List.map_congr_left
+      intro i _
+      simp [VW.rowWin, VW.pos, TD.asView, TD.win]
+    rw [hwin, tdCopyLoop_eq_zipCopy, hrows]
+    rw [show t.numRows = t.asView.numRows from rfl, zipCopy_rows hinv (readWin sbuf ∘ sv.rowWin)]
+    · congr 1
+      apply updCells_congr
+      intro c r hc hr
+      have hpe : sv.pos 0 r + c = sv.pos c r := by unfold VW.pos; omega
+      have hc' : c < sv.numCols := by rw [← hd.1]; exact hc
+      simp only [Function.comp, readWin_getElem?, VW.rowWin, if_pos hc', hpe]
+    · intro r hr
+      have hr' : r < sv.numRows := by rw [← hd.2]; exact hr
+      have := hs.seg_inside (c := 0) (w := sv.numCols) hr' (by omega)
+      rw [Function.comp, readWin_length _ _ this]
+      exact hd.1.symm
+  · intro hd
+    rw [if_pos hd]
+    rfl
 
 /-- the two rectangles of `copy_within` fit -/
 def rectsFit (C R : Nat) (tl br dest : Nat × Nat) : Prop :=
@@ -66,6 +175,77 @@ theorem C14_copy_within (m : Mode) (v : VW) (buf : List α) (h : v.Inv buf.lengt
       a.copyWithin m indexRowMut buf tl br dest = .ok (v.updCells buf (copyWithinCells v buf tl br dest))) ∧
     (¬ rectsFit v.numCols v.numRows tl br dest →
       a.copyWithin m indexRowMut buf tl br dest = .error .panic) := by
-  sorry
+  have hCw := h.cols_word
+  have hRw := h.rows_word
+  obtain ⟨tl1, tl2⟩ := tl
+  obtain ⟨br1, br2⟩ := br
+  obtain ⟨d1, d2⟩ := dest
+  simp only [Acc.copyWithin, ha.cols, ha.rows, rectsFit]
+  constructor
+  · rintro ⟨h1, h2, h3, h4, h5, h6⟩
+    have g1 : d1 ≤ v.numCols := by omega
+    have g2 : d2 ≤ v.numRows := by omega
+    have g3 : br1 - tl1 ≤ v.numCols - d1 := by omega
+    have g4 : br2 - tl2 ≤ v.numRows - d2 := by omega
+    simp only [h1, h2, h3, h4, g1, g2, g3, g4, not_true_eq_false, if_false, usub_ok, ok_bind]
+    have hrow : ∀ r r2, r < v.numRows → r2 < v.numRows → r ≠ r2 →
+        a.rowPairMut m r r2 = .ok (v.rowWin r, v.rowWin r2) := fun r r2 hr hr2 hne =>
+      ((C13_row_pair m v buf.length h a ha r r2 ⟨by omega, by omega⟩).1 ⟨hr, hr2, hne⟩).1
+    have hmem := cw_rows_mem tl2 br2
+    by_cases hlt : tl2 < d2
+    · -- `Less`: bottom-up
+      rw [if_pos hlt, usub_ok m _ _ (Nat.le_of_lt hlt), ok_bind]
+      apply cw_fold_all h (tl1, tl2) (br1, br2) (d1, d2) h1 h3 h4 h5 h6
+      · intro b r hb hr
+        rw [List.mem_reverse, hmem] at hr
+        have e : r + (d2 - tl2) = r - tl2 + d2 := by omega
+        rw [uadd_ok m _ _ (by omega), ok_bind, e]
+        exact copyWithinRowPair_ok h m a b hb (hrow _ _ (by omega) (by omega) (by omega)) (by omega) h1 h3 h5
+      · intro x; rw [List.mem_reverse]; exact hmem x
+      · rw [List.pairwise_reverse, List.pairwise_map]
+        exact List.Pairwise.imp (fun {i j} (hij : i < j) => by simp only; omega) List.pairwise_lt_range
+    · rw [if_neg hlt]
+      by_cases hgt : tl2 > d2
+      · -- `Greater`: top-down
+        rw [if_pos hgt, usub_ok m _ _ (Nat.le_of_lt hgt), ok_bind]
+        apply cw_fold_all h (tl1, tl2) (br1, br2) (d1, d2) h1 h3 h4 h5 h6
+        · intro b r hb hr
+          rw [hmem] at hr
+          have e : r - (tl2 - d2) = r - tl2 + d2 := by omega
+          rw [usub_ok m _ _ (by omega), ok_bind, e]
+          exact copyWithinRowPair_ok h m a b hb (hrow _ _ (by omega) (by omega) (by omega)) (by omega) h1 h3 h5
+        · exact hmem
+        · rw [List.pairwise_map]
+          exact List.Pairwise.imp (fun {i j} (hij : i < j) => by simp only; omega) List.pairwise_lt_range
+      · -- `Equal`: per-row memmove
+        rw [if_neg hgt]
+        have heq : tl2 = d2 := by omega
+        apply cw_fold_all h (tl1, tl2) (br1, br2) (d1, d2) h1 h3 h4 h5 h6
+        · intro b r hb hr
+          rw [hmem] at hr
+          have e : r - tl2 + d2 = r := by omega
+          rw [hidx r (by omega), ok_bind, e]
+          exact sliceCopyWithin_ok v b h1 h3 h5
+        · exact hmem
+        · rw [List.pairwise_map]
+          exact List.Pairwise.imp (fun {i j} (hij : i < j) => by simp only; omega) List.pairwise_lt_range
+  · intro hn
+    by_cases h1 : tl1 ≤ br1
+    · by_cases h2 : tl2 ≤ br2
+      · by_cases h3 : br1 ≤ v.numCols
+        · by_cases h4 : br2 ≤ v.numRows
+          · by_cases g1 : d1 ≤ v.numCols
+            · by_cases g3 : br1 - tl1 ≤ v.numCols - d1
+              · by_cases g2 : d2 ≤ v.numRows
+                · have g4 : ¬ br2 - tl2 ≤ v.numRows - d2 := by
+                    intro g4; exact hn ⟨h1, h2, h3, h4, by omega, by omega⟩
+                  simp [h1, h2, h3, h4, g1, g2, g3, g4, usub_ok]
+                · simp [h1, h2, h3, h4, g1, g2, usub_ok]
+              · simp [h1, h2, h3, h4, g1, g3, usub_ok]
+            · simp [h1, h2, h3, h4, g1, usub_ok]
+          · simp [h1, h2, h3, h4]
+        · simp [h1, h2, h3]
+      · simp [h1, h2]
+    · simp [h1]
 
 end Toodee
